@@ -337,8 +337,10 @@ class HalfRankComponent(OutputWarper):
         labels_arr[is_finite], return_index=True
     )
 
-    # Rank sort.
-    ranks = stats.rankdata(labels_arr, method='dense')  # nans ranked last.
+    # Rank sort over the finite labels only. Since scipy 1.10 `rankdata`
+    # propagates NaNs (every rank becomes NaN) instead of ranking them last.
+    ranks = np.full(labels_arr.shape, np.nan)
+    ranks[is_finite] = stats.rankdata(labels_arr[is_finite], method='dense')
     dedup_median_index = unique_labels.searchsorted(median, 'left')
     denominator = (
         dedup_median_index + (unique_labels[dedup_median_index] == median) * 0.5
